@@ -329,3 +329,28 @@ func replay(raw stdjson.RawMessage) (bool, string) {
 	od, dir, desc := evalCase(cs)
 	return od || dir != "", desc
 }
+
+// ForEachSchema yields every (kind, position, rule set of <= k rules) as a case
+// (accepted and rejected ones alike).
+func ForEachSchema(k int, f func(sc.Case)) {
+	for _, ks := range kinds {
+		node := ks.mk()
+		p := pool(node.Kind)
+		for pos := 0; pos < 3; pos++ {
+			var rec func(start int, cur []gen.Rule)
+			rec = func(start int, cur []gen.Rule) {
+				cs, _ := caseT{ks.name, pos, append([]gen.Rule{}, cur...)}.build()
+				f(cs)
+				if len(cur) == k {
+					return
+				}
+				for i := start; i < len(p); i++ {
+					for _, v := range p[i].vals {
+						rec(i+1, append(cur, v))
+					}
+				}
+			}
+			rec(0, nil)
+		}
+	}
+}
